@@ -611,20 +611,27 @@ def finishTask (s : EState) : EState :=
     | none => .returned
   { s with taskResult := res, pc := .finished, blockingEvent := true }
 
-/-- process message `m` yielded by the top plan -/
-def processMsg (s : EState) (m : Msg) : Flow :=
+/-- bookkeeping for a message handed out by the top plan: msg_hook, objs_seen, the message cache -/
+def noteMsg (s : EState) (m : Msg) : EState :=
   let s := { s with msgs := s.msgs ++ [m], stashed := none }
   let s := match m.obj with
     | some o => if s.objsSeen.contains o then s else { s with objsSeen := s.objsSeen ++ [o] }
     | none => s
-  let s := match s.msgCache with
-    | some c => if s.rewindable && !Src.uncacheable.contains m.cmd then { s with msgCache := some (c ++ [m]) } else s
-    | none => s
-  if !Src.registry.contains m.cmd then .loopTop (fin s (.exc .invalidCommand)) else
-  match runCommand s m with
+  match s.msgCache with
+  | some c => if s.rewindable && !Src.uncacheable.contains m.cmd then { s with msgCache := some (c ++ [m]) } else s
+  | none => s
+
+/-- what follows the command: its outcome becomes the new response, or `_run` suspends inside it -/
+def afterCommand (m : Msg) : EState × CmdOut → Flow
   | (s, .value r) => .loopTop (fin s r)
   | (s, .raised e) => .loopTop (fin s (.exc e))
   | (s, .suspend pc) => .stop { s with pc := pc, curMsg := some m }
+
+/-- process message `m` yielded by the top plan -/
+def processMsg (s : EState) (m : Msg) : Flow :=
+  let s := noteMsg s m
+  if !Src.registry.contains m.cmd then .loopTop (fin s (.exc .invalidCommand))
+  else afterCommand m (runCommand s m)
 
 /-- pop a dead plan: `_plan_stack.pop(); resp = sentinel` and decide -/
 def popPlan (s : EState) (how : Option Exc) : Flow :=
@@ -636,39 +643,52 @@ def popPlan (s : EState) (how : Option Exc) : Flow :=
     | some e => .loopTop { s with stashed := some e }
     | none => .loopTop s
 
+/-- `resp = self._response_stack.pop()` and the pick-up of `self._exception` -/
+def takeResp (s : EState) (r : Resp) (rs : List Resp) : EState :=
+  let s := { s with respStack := rs, resp := some r }
+  match s.exceptionSlot with
+  | some e => { s with stashed := some e, exceptionSlot := none }
+  | none => s
+
+/-- `stashed_exception or resp` when one of them is an exception to throw -/
+def thrownOf (s : EState) (r : Resp) : Option Exc :=
+  match s.stashed, r with
+  | some e, _ => some e
+  | none, .exc e => if e.isException then some e else none
+  | none, _ => none
+
+def logYield (s : EState) (g : Gen) (inp : Inp) : EState :=
+  match g.pendingMid with
+  | some mid => { s with yields := s.yields ++ [(mid, inp)] }
+  | none => s
+
+/-- what the top plan did when resumed -/
+def afterResume (s : EState) (gs : List Gen) (thrown : Option Exc) : Out × Gen → Flow
+  | (.yld m, g') => processMsg { s with planStack := g' :: gs } m
+  | (.ret, g') =>
+    -- StopIteration: in the throw branch it is caught by `except Exception as e` and stashed
+    let s := { s with planStack := g' :: gs }
+    match thrown with
+    | some _ => popPlan s (some .stopIteration)
+    | none => popPlan s none
+  | (.raise e, g') =>
+    let s := { s with planStack := g' :: gs }
+    if e.isException then popPlan s (some e)
+    else
+      -- BaseException only (GeneratorExit / PlanHalt / CancelledError): not caught by the inner
+      -- handlers, the inner finally runs with resp still set, then the outer ladder
+      .stop (leaveLoop (fin s .none) e)
+
 /-- after the loop-top sleep(0): pop a response, resume the top plan, process its message -/
 def afterSleep (s : EState) : Flow :=
   match s.respStack, s.planStack with
   | r :: rs, g :: gs =>
-    let s := { s with respStack := rs, resp := some r }
-    let s := match s.exceptionSlot with
-      | some e => { s with stashed := some e, exceptionSlot := none }
-      | none => s
-    let thrown : Option Exc := match s.stashed, r with
-      | some e, _ => some e
-      | none, .exc e => if e.isException then some e else none
-      | none, _ => none
+    let s := takeResp s r rs
+    let thrown := thrownOf s r
     let inp : Inp := match thrown with
       | some e => .throw e
       | none => .send r
-    let s := match g.pendingMid with
-      | some mid => { s with yields := s.yields ++ [(mid, inp)] }
-      | none => s
-    match g.resume inp with
-    | (.yld m, g') => processMsg { s with planStack := g' :: gs } m
-    | (.ret, g') =>
-      -- StopIteration: in the throw branch it is caught by `except Exception as e` and stashed
-      let s := { s with planStack := g' :: gs }
-      match thrown with
-      | some _ => popPlan s (some .stopIteration)
-      | none => popPlan s none
-    | (.raise e, g') =>
-      let s := { s with planStack := g' :: gs }
-      if e.isException then popPlan s (some e)
-      else
-        -- BaseException only (GeneratorExit / PlanHalt / CancelledError): not caught by the inner
-        -- handlers, the inner finally runs with resp still set, then the outer ladder
-        .stop (leaveLoop (fin s .none) e)
+    afterResume (logYield s g inp) gs thrown (g.resume inp)
   | _, _ => .stop (leaveLoop s .runtimeError)     -- unreachable when the stacks are in step
 
 /-- `except asyncio.CancelledError` inside the loop -/
@@ -681,6 +701,15 @@ def hCancel (s : EState) (newResp : Resp) : Flow :=
     else if s.stashed == some .cancelled then .stop (leaveLoop (fin s newResp) .cancelled)
     else .loopTop (fin (if s.stashed.isNone then { s with stashed := some .cancelled } else s) newResp)
 
+/-- the pause sequence at the top of the loop (`if not self._run_permit.is_set()`) -/
+def pauseBlock (s : EState) : Flow :=
+  let s := forBundlers s suspendMonitors
+  let s := stopMovables s
+  let s := pauseHooks s
+  match setState s .paused with
+  | .error e => .stop (leaveLoop s e)
+  | .ok s => .stop { s with blockingEvent := true, pc := .pausedWait }
+
 /-- the top of the while loop, up to the next suspension -/
 def loopTop (s : EState) : Flow :=
   if (s.state == .pausing || s.state == .suspending) && s.msgCache.isNone then
@@ -692,14 +721,7 @@ def loopTop (s : EState) : Flow :=
   match s1 with
   | .error e => .stop (leaveLoop s e)
   | .ok s =>
-  if !s.permit then
-    -- pause sequence
-    let s := forBundlers s suspendMonitors
-    let s := stopMovables s
-    let s := pauseHooks s
-    match setState s .paused with
-    | .error e => .stop (leaveLoop s e)
-    | .ok s => .stop { s with blockingEvent := true, pc := .pausedWait }
+  if !s.permit then pauseBlock s
   else
     match s.stashed with
     | none => .stop { s with pc := .loopSleep, resp := none }
@@ -720,9 +742,7 @@ def contFlow (fuel : Nat) : Flow → EState
 
 /-- resume `_run` from its suspension point (the loop gives it the CPU).  Delivers a pending
     cancellation as CancelledError at that point. -/
-def advance (fuel : Nat) (s : EState) : EState :=
-  let cancel := s.cancelPending
-  let s := { s with cancelPending := false }
+def advanceAt (fuel : Nat) (cancel : Bool) (s : EState) : EState :=
   match s.pc with
   | .noTask | .finished => s
   | .start =>
@@ -762,5 +782,8 @@ def advance (fuel : Nat) (s : EState) : EState :=
   | .exitSleep =>
     let s := if cancel then { s with stashed := some .cancelled, exitExc := some .cancelled } else s
     finishTask (cleanup s)
+
+def advance (fuel : Nat) (s : EState) : EState :=
+  advanceAt fuel s.cancelPending { s with cancelPending := false }
 
 end BlueskyVerif.Engine
